@@ -4115,7 +4115,18 @@ static void emit_context_error(
     /* A mismatch against a type the checker itself could not infer ("unknown": opaque
      * handles, some extern results) stays advisory; every other error reported while the
      * program itself is checked is fatal (imported modules keep their old, lenient verdict). */
-    if (!(message && strstr(message, "unknown"))) {
+    bool involves_unknown_type = false;
+    if (message) {
+        /* look for the type name "unknown" outside quoted identifiers (`name`, 'name'): a variable
+         * called unknown_x must not turn its own diagnostic into an advisory one */
+        char quote = 0;
+        for (const char *c = message; *c; c++) {
+            if (quote) { if (*c == quote) quote = 0; continue; }
+            if (*c == '`' || *c == '\'') { quote = *c; continue; }
+            if (strncmp(c, "unknown", 7) == 0) { involves_unknown_type = true; break; }
+        }
+    }
+    if (!involves_unknown_type) {
         g_typecheck_error_diagnostics++;
     }
     if (g_typecheck_current_file) {
